@@ -70,7 +70,7 @@ Section Failure.
   Context {V Ch Req D : Type}.
   Context (candidate : V -> Ch -> V) (candidate_rb : V -> Ch -> V) (rollback_of : V -> Ch -> Ch)
           (overlay : V -> V -> V) (commit_merge : N -> N -> V -> V -> Ch -> V)
-          (payload : N -> V -> Ch -> option Req) (record_applied : N -> V -> V -> V -> Ch -> V)
+          (payload : N -> V -> Ch -> option Req) (record_applied : N -> N -> V -> V -> V -> Ch -> V)
           (touched : N -> V -> Ch -> V) (restore : V -> V -> V)
           (resync_payload : V -> list (option Req)) (doc_ok : V -> bool)
           (dev_apply : D -> Req -> D) (stamp : N -> Ch -> Ch) (v_empty : V) (d_empty : D) (ch_empty : Ch).
@@ -143,12 +143,12 @@ Section Failure.
     sd_payload : payload i (view C) (rb_change P) = Some req }.
 
   (* what the invocation does after the device answered [a] *)
-  Definition after_answer (t i : N) (P : prop) (C : config) (m : N) (req : Req) (a : code) : list eff * result :=
+  Definition after_answer (ord : N) (t i : N) (P : prop) (C : config) (m : N) (req : Req) (a : code) : list eff * result :=
     let ch := rb_change P in
     let ev := EDev (DevSet t m (c_term C) (Some i) req a) in
     match a with
     | COk =>
-      ([ev; EPutAValues t (record_applied i (c_avalues C) (aview C) (view C) ch);
+      ([ev; EPutAValues t (record_applied ord i (c_avalues C) (aview C) (view C) ch);
         EPutCfg t (C <| c_applied := i |> <| c_inline := touched i (view C) ch |> <| c_ainline := v_empty |>);
         EPutProp (t, i) (P <| p_apply := Some Done |> <| p_term := c_term C |>)], requeue_next t P)
     | _ =>
@@ -165,7 +165,7 @@ Section Failure.
 
   Lemma rec_prop_send (o : oracle) (w : world) t i P C m req :
     sendable w t i P C m req ->
-    rec_prop o w (t, i) = after_answer t i P C m req (dev_answer w t (c_term C) o).
+    rec_prop o w (t, i) = after_answer (o_order o) t i P C m req (dev_answer w t (c_term C) o).
   Proof.
     intros [HP Ha HC Hna Hprev Hsync Htg Hterm Hm [tt Hrel] Hconn Hpay].
     unfold Proto2.rec_prop, after_answer. rewrite HP, Ha, HC.
@@ -228,7 +228,7 @@ Section Failure.
     dev_answer w t (c_term C) o = COk ->
     rec_prop o w (t, i) =
       ([EDev (DevSet t m (c_term C) (Some i) req COk);
-        EPutAValues t (record_applied i (c_avalues C) (aview C) (view C) (rb_change P));
+        EPutAValues t (record_applied (o_order o) i (c_avalues C) (aview C) (view C) (rb_change P));
         EPutCfg t (C <| c_applied := i |> <| c_inline := touched i (view C) (rb_change P) |> <| c_ainline := v_empty |>);
         EPutProp (t, i) (P <| p_apply := Some Done |> <| p_term := c_term C |>)], requeue_next t P).
   Proof.
@@ -281,7 +281,7 @@ Section Failure.
     rewrite firstn_all2 by (cbn; lia).
     destruct (apply_world w t i P (P <| p_apply := Some Done |> <| p_term := c_term C |>) C
                 (DevSet t m (c_term C) (Some i) req COk)
-                (record_applied i (c_avalues C) (aview C) (view C) (rb_change P))
+                (record_applied (o_order o) i (c_avalues C) (aview C) (view C) (rb_change P))
                 (touched i (view C) (rb_change P)) (sd_prop _ _ _ _ _ _ _ Hs) (sd_cfg _ _ _ _ _ _ _ Hs)) as (E1 & E2 & E3).
     split; [|split].
     - eexists. rewrite E1, lookup_insert. split; [reflexivity|]. split; reflexivity.
